@@ -109,7 +109,7 @@ def make(spec):
     for o in p.operations:
         for v in list(o.get("args", [])) + list(o.get("kwargs", {}).values()):
             walk(v)
-    if names and hasattr(p, "_parameters"):
+    if names and isinstance(getattr(p, "_parameters", None), list):
         p._parameters.extend(sym.Symbol(n) for n in sorted(names))
     return p
 
@@ -122,6 +122,22 @@ def _values():
     if _V is None:
         _V = values()
     return _V
+
+
+def _written_parameters(p):
+    import sympy as sym
+    names = set()
+
+    def walk(v):
+        if isinstance(v, sym.Expr):
+            names.update(str(x) for x in v.free_symbols)
+        elif isinstance(v, (list, tuple)):
+            for x in v:
+                walk(x)
+    for o in p.operations:
+        for v in list(o.get("args", [])) + list(o.get("kwargs", {}).values()):
+            walk(v)
+    return names
 
 
 def judge(spec):
@@ -152,6 +168,10 @@ def judge(spec):
         return (key("reload-raises", type(q).__name__ + ":" + common.msgclass(q)), common.exc_sig(q) + " ;; " + t[-300:])
     p2 = make(spec)      # compare against a fresh copy: dumps must not be needed to have left p intact here (C13's subject)
     d = equiv.prog_equiv(p2, q)
+    if set(p2.parameters) != _written_parameters(p2):
+        # the harness could not register the parameter names on the assembled program (no public setter and the
+        # internal list is gone): the parameter comparison would be about the harness, not about dumps/loads
+        d = [x for x in d if not x.startswith("parameters")]
     if d:
         return (key("differs", equiv.classify(d)), "; ".join(d)[:300] + " ;; " + t[-200:])
     return None
